@@ -579,6 +579,23 @@ theorem chained_skip_personal (pre post : List (Visitor σ)) (w : Visitor σ)
   rw [h2]
   simp [chainEnterP, List.reverse_append]
 
+/-! ### chains of chains (W10) -/
+
+/-- leaf visitors logging `k` on enter and `10 + k` on leave; `skips` raises SkipNode -/
+def logger (k : Nat) (skips : Bool) : Visitor (List Nat) :=
+  ⟨fun n s => (if skips then .skip n else .keep n, s ++ [k]), fun _ s => s ++ [10 + k]⟩
+
+/-- `ChainedVisitor(ChainedVisitor(A, S), B)` with `S` raising SkipNode: run member by member (the code before fix
+    C18-W10) `A` is left BEFORE `B` is entered (`enter A, enter S, leave A, enter B, leave B`); as its flattening
+    (with the fix) the leaf visitors enter in order and leave in reverse (`enter A, S, B, leave B, A`). -/
+theorem nested_chain_compose_vs_flat :
+    let t : VTree (List Nat) := .chain [.chain [.leaf (logger 1 false), .leaf (logger 2 true)], .leaf (logger 3 false)]
+    (t.compose.enter default []).2 = [1, 2, 11, 3, 13] ∧ (t.flat.enter default []).2 = [1, 2, 3, 13, 11] := by
+  decide
+
+/-- the flattening meets the specification of `chained_skip_personal`: it IS a flat chain of the leaf visitors -/
+theorem nested_chain_flat_is_chain (t : VTree σ) : t.flat = chained t.flatten true := rfl
+
 /-- the full expectation on chains: what a member decides for a node is what the chain does with it -/
 def ChainFaithful : Prop :=
   ∀ (v : Visitor Unit) (n : Node), ((chained [v]).enter n ()).1 = (v.enter n ()).1
